@@ -433,3 +433,16 @@ def merged_list_is_private(ctx):
     appended = {U(n.func.value) for n in ast.walk(fi.node) if isinstance(n, ast.Call) and isinstance(n.func, ast.Attribute) and n.func.attr in ("append", "insert") and isinstance(n.func.value, (ast.Name, ast.Attribute))}
     fresh = {U(n.targets[0]) for n in ast.walk(fi.node) if isinstance(n, ast.Assign) and (isinstance(n.value, ast.List) and not n.value.elts or (isinstance(n.value, ast.Call) and U(n.value.func) == "list" and not n.value.args))}
     ctx.check("patch_macros appends only to lists created by this call", bool(appended) and appended <= fresh, "fresh [] / list()", f"appended to: {sorted(appended)}; fresh: {sorted(fresh)}", fn_where(idx, fi))
+
+
+@rule("R20.8", "C20", "every regeneration reads and writes the files of the repository it runs in: paths are resolved afresh on each use, nothing is memoised across calls", min_instances=1)
+def r20_8(ctx):
+    from .c14 import no_function_level_caches
+
+    no_function_level_caches(ctx)
+    idx = get_index(ctx.env)
+    fi = idx.func("Conf.get_path")
+    fr = idx.func("Conf.replace_placeholders")
+    reach = idx.reachable([fi])
+    runs_git = [q for q, f in reach.items() if any(isinstance(n, ast.Call) and U(n.func) == "subprocess.run" and "rev-parse" in U(n) for n in ast.walk(f.node))]
+    ctx.check("Conf.get_path asks git for the repository root on each call", bool(runs_git), "a `git rev-parse --show-toplevel` call reachable from get_path", str(sorted(runs_git)), fn_where(idx, fr))
